@@ -69,7 +69,7 @@ func New(arguments framework.PluginArguments) framework.Plugin {
 	if err != nil {
 		log.InfraLogger.Warningf("Failed to parse relcaimerSaturationMultiplier: %v. Using default value of 1.0", err)
 	}
-	if multiplier < 1.0 {
+	if multiplier < 1.0 || math.IsNaN(multiplier) {
 		log.InfraLogger.Warningf("relcaimerSaturationMultiplier must be >= 1.0, got %v. Using default value of 1.0", multiplier)
 		multiplier = 1.0
 	}
